@@ -61,3 +61,104 @@ def geometry_images(tools, outdir, n, rnd):
         if cmds: tools.dbg(img, cmds, write=True)
         made.append(dict(img=img, bs=bs, groups=groups, bpg=bpg, kind=kind, blocks=blocks))
     return made
+
+# =====================================================================================================
+# Configuration space + population recipes for the tool-level checks
+# =====================================================================================================
+CONFIGS = [
+    # name, fstype, bs, blocks, features, extra
+    dict(name='ext4-1k', fstype='ext4', bs=1024, blocks=8193, features=[], extra=[]),
+    dict(name='ext4-4k', fstype='ext4', bs=4096, blocks=4096, features=[], extra=[]),
+    dict(name='ext4-2k-groups', fstype='ext4', bs=2048, blocks=6144, features=[], extra=['-g', '1024', '-G', '2']),
+    dict(name='ext4-1k-manygroups', fstype='ext4', bs=1024, blocks=8193, features=[], extra=['-g', '512', '-G', '4', '-N', '512']),
+    dict(name='ext4-1k-noflex-uninit', fstype='ext4', bs=1024, blocks=8193, features=['^flex_bg', '^metadata_csum', 'uninit_bg'], extra=['-g', '1024']),
+    dict(name='ext4-1k-nocsum', fstype='ext4', bs=1024, blocks=8193, features=['^metadata_csum', '^uninit_bg'], extra=[]),
+    dict(name='ext4-1k-32bit', fstype='ext4', bs=1024, blocks=8193, features=['^64bit'], extra=[]),
+    dict(name='ext4-1k-inline', fstype='ext4', bs=1024, blocks=8193, features=['inline_data'], extra=['-I', '256']),
+    dict(name='ext4-4k-inline-ea', fstype='ext4', bs=4096, blocks=4096, features=['inline_data', 'ea_inode'], extra=['-I', '512']),
+    dict(name='ext4-1k-bigalloc', fstype='ext4', bs=1024, blocks=16384, features=['bigalloc'], extra=['-C', '4096']),
+    dict(name='ext4-1k-metabg', fstype='ext4', bs=1024, blocks=8193, features=['meta_bg', '^resize_inode'], extra=['-g', '1024']),
+    dict(name='ext4-1k-nojournal', fstype='ext4', bs=1024, blocks=8193, features=['^has_journal'], extra=[]),
+    dict(name='ext4-1k-quota', fstype='ext4', bs=1024, blocks=8193, features=['quota', 'project'], extra=[]),
+    dict(name='ext4-1k-sparse2', fstype='ext4', bs=1024, blocks=8193, features=['sparse_super2', '^resize_inode'], extra=['-g', '1024']),
+    dict(name='ext4-1k-i128', fstype='ext4', bs=1024, blocks=8193, features=[], extra=['-I', '128']),
+    dict(name='ext4-1k-largedir-tea', fstype='ext4', bs=1024, blocks=8193, features=['large_dir'], extra=[], post=['-E', 'hash_alg=tea']),
+    dict(name='ext3-1k', fstype='ext3', bs=1024, blocks=8193, features=[], extra=[]),
+    dict(name='ext3-4k', fstype='ext3', bs=4096, blocks=4096, features=[], extra=[]),
+    dict(name='ext2-1k', fstype='ext2', bs=1024, blocks=8193, features=[], extra=[]),
+    dict(name='ext2-1k-nodirindex-legacyhash', fstype='ext2', bs=1024, blocks=8193, features=['^dir_index'], extra=['-g', '2048']),
+    dict(name='ext2-2k-rev0ish', fstype='ext2', bs=2048, blocks=4096, features=['^resize_inode', '^ext_attr', '^dir_index', '^sparse_super', '^large_file'], extra=[]),
+]
+# MMP makes every tool run sleep for the update interval: kept out of the general sweeps, used by C13 only
+MMP_CONFIG = dict(name='ext4-1k-mmp', fstype='ext4', bs=1024, blocks=8193, features=['mmp'], extra=['-E', 'mmp_update_interval=1'])
+
+def config_by_name(n):
+    for c in CONFIGS:
+        if c['name'] == n: return c
+    raise KeyError(n)
+
+def mk_config(tools, img, cfg, env=None):
+    extra = list(cfg['extra'])
+    p = mkfs(tools, img, cfg['blocks'], cfg['bs'], cfg['features'], extra, fstype=cfg['fstype'], env=env)
+    if p.rc == 0 and cfg.get('post'):
+        q = vrun.run([tools.tune2fs] + cfg['post'] + [img], merge=True)
+        if q.rc != 0: p.rc = q.rc; p.out += q.out
+    return p
+
+def _blob(d, name, size, seed):
+    p = os.path.join(d, name)
+    if not os.path.exists(p):
+        h = hashlib.sha256(('%s:%d' % (name, seed)).encode()).digest()
+        data = (h * (size // 32 + 1))[:size]
+        with open(p, 'wb') as f: f.write(data)
+    return p
+
+def populate_script(cfg, recipe, blobdir, rnd):
+    """debugfs command list that creates every metadata class the feature set allows. recipe: dict of knobs."""
+    c = []
+    bs = cfg['bs']; ext = cfg['fstype'] == 'ext4'
+    big = _blob(blobdir, 'big', recipe.get('big', 90000), 1); mid = _blob(blobdir, 'mid', 5000, 2); small = _blob(blobdir, 'small', 37, 3)
+    c += ['write %s big' % big, 'write %s mid' % mid, 'write %s small' % small, 'write /dev/null empty']
+    c += ['mkdir d1', 'mkdir d1/d2', 'mkdir d1/d2/d3', 'write %s d1/d2/d3/deep' % mid]
+    c += ['symlink fastlink target-%s' % ('x' * 20), 'symlink d1/slowlink /%s' % ('y' * 200)]
+    c += ['cd d1', 'mknod fifo p', 'mknod chr c 4 5', 'mknod blk b 8 1', 'cd /']
+    # hard links: ln does not bump the count (documented), set it explicitly
+    c += ['ln mid d1/mid-link', 'ln mid d1/d2/mid-link2', 'sif mid links_count 3']
+    # sparse file and (on extent fs) a fragmented file with many extents
+    sp = _blob(blobdir, 'sp', 3 * bs, 4)
+    c += ['write %s sparse' % sp]
+    if ext:
+        n = recipe.get('frag', 60)
+        c += ['write /dev/null frag', 'fallocate frag 0 %d' % (2 * n - 1)] + ['punch frag %d %d' % (2 * i + 1, 2 * i + 1) for i in range(n)]
+        c += ['sif frag size %d' % (2 * n * bs)]
+    else:
+        c += ['write %s indirect' % _blob(blobdir, 'ind', 300 * bs // (bs // 1024) if bs > 1024 else 300 * 1024, 5)]
+    # directories: many entries (indexed later by e2fsck -D when dir_index is on)
+    nd = recipe.get('dirents', 120)
+    c += ['mkdir many', 'cd many']
+    for i in range(nd):
+        nm = 'f%03d-%s' % (i, 'n' * (rnd.randrange(1, 60) if recipe.get('longnames') else 3))
+        c.append('write /dev/null %s' % nm)
+    c += ['cd /']
+    if 'ext_attr' not in ' '.join(cfg['features']) or True:
+        if '^ext_attr' not in cfg['features']:
+            c += ['ea_set mid user.small v1', 'ea_set big user.medium %s' % ('m' * 200), 'ea_set d1 trusted.dirattr dv', 'ea_set small security.sel ctx']
+            val = os.path.join(blobdir, 'eaval'); open(val, 'wb').write(b'E' * min(900, bs - 200))
+            c += ['ea_set -f %s big user.blockval' % val]
+    if recipe.get('rm', True):
+        c += ['write %s todel' % mid, 'rm todel', 'mkdir deldir', 'rmdir deldir']
+    return c
+
+def build_image(tools, img, cfg, recipe, blobdir, rnd, index_dirs=True):
+    """mke2fs + populate + (optionally) e2fsck -fyD. Returns (ok, log)."""
+    p = mk_config(tools, img, cfg)
+    if p.rc != 0: return False, 'mke2fs: ' + p.out[-500:]
+    script = populate_script(cfg, recipe, blobdir, rnd)
+    q = tools.dbg(img, script, write=True, cpu=60)
+    feats = cfg['features']
+    opts = '-fyD' if (index_dirs and '^dir_index' not in feats) else '-fy'
+    r = tools.fsck(img, opts)   # also brings quota files up to date (debugfs does not maintain them)
+    if r.rc not in (0, 1): return False, 'e2fsck %s rc=%s: %s' % (opts, r.rc, r.out[-800:])
+    r2 = tools.fsck(img, '-fn')
+    if r2.rc != 0: return False, 'not clean after population: ' + r2.out[-800:]
+    return True, ''
